@@ -19,11 +19,11 @@ import (
 
 type boundedHarness struct {
 	prop    string
-	subject string   // obligation name prefix, e.g. gts.Repair
+	subject string // obligation name prefix, e.g. gts.Repair
 	pos     string
-	file    string   // under /verif/bounded
-	pkgDir  string   // package directory under /repo the test file is injected into
-	test    string   // test function
+	file    string // under /verif/bounded
+	pkgDir  string // package directory under /repo the test file is injected into
+	test    string // test function
 	clauses []string
 	labels  [][2]string // defect classes the harness can tell apart (clause, label)
 }
